@@ -4,8 +4,8 @@ recorded from the real Fundamentals object; partial (see level note)."""
 import fund_props
 
 PROP = "C12"
-LEAN_MODULES = ["PamsProps.C12", "PamsProps.C12S"]
-NAMESPACES = ["Pams.C12", "Pams.C12"]
+LEAN_MODULES = ["PamsProps.C12", "PamsProps.C12S", "PamsProps.SrcFund"]
+NAMESPACES = ["Pams.C12", "Pams.C12", "Pams.C12"]
 DRIVERS = ["Pure"]
 TRUSTED = [
     "PARTIAL: that numpy.random.Generator.standard_normal yields independent standard normals and that scipy.linalg.cholesky returns L with L L^T = cov are assumed (the latter is checked numerically on every generated input); proved is the algebra turning them into drift / volatility / correlation and every path fact",
